@@ -6,6 +6,7 @@ repository's own test-suite). Each judges the calls it sees with an oracle and a
   M-quiescent DagWalker.walk                  empty work stack after every top-level walk      (C14)
   M-simplify  Simplifier.simplify             evaluation under sampled interpretations, FV, idempotence   (C11)
   M-sim       UPSequentialSimulator.apply / is_applicable   reference successor semantics      (C01, C02)
+  M-state     UPState (vk/mon/statemon.py)    finite-map shadow model                          (C36)
 
 Used by vk/mon/pytest_plugin.py (repo test-suite under monitors) — thorough tier of C01, C02, C11, C13, C14, C16.
 Every monitor counts its evaluations; zero evaluations => the owning check is inconclusive."""
@@ -67,6 +68,10 @@ def install_all(log, which=("node", "subst", "quiescent", "simplify", "sim")):
         un.append(install_simplify(log))
     if "sim" in which:
         un.append(install_sim(log))
+    if "state" in which:
+        from vk.mon import statemon
+
+        un.append(statemon.install(log))
 
     def uninstall():
         for u in reversed(un):
